@@ -106,3 +106,19 @@ Definition entropy_trunc_expr (K : nat) (lam : expr) : expr :=
 Definition check_entropy_case (c : Z * Z * nat * Z * Z * Z * Z) : bool :=
   let '(ln_, ld, K, vn, vd, tn, td) := c in
   close_check (entropy_trunc_expr K (EQ ln_ ld)) (EQ vn vd) (EQ tn td).
+
+(* ---- the complete accuracy check (Proofs/PoissonSeries.v, PoissonTail.v): lambda > 0, 2 lambda <= K+1 (geometric decay
+   from term K on), p_K <= 1e-18, and |sum_{k<=K} -p_k ln p_k - v| <= 1e-9 - 1e-16.  Together with the proved tail bound
+   delta (-ln delta + 2 ln 2) <= 1e-16 this certifies |sum_{k<=K+M} -p_k ln p_k - v| <= 1e-9 for EVERY M. *)
+Definition delta18 : expr := EQ 1 (10 ^ 18).
+Definition tail_margin : expr := EQ 1 (10 ^ 16).
+Definition pK_expr (K : nat) (lamE : expr) : expr :=   (* p_K - 1e-18, with ln K! as a sum of logarithms *)
+  ELet lamE (ESub (EExp (ESub (EAdd (ENeg (EVar 0)) (EMul (EZ (Z.of_nat K)) (ELn (EVar 0))))
+                              (ESum (map (fun j => ELn (EZ (Z.of_nat j))) (seq 1 K))))) delta18).
+(* case = (lambda = ln/ld, K, implementation's value vn/vd) *)
+Definition check_entropy_full_case (c : Z * Z * nat * Z * Z) : bool :=
+  let '(ln_, ld, K, vn, vd) := c in
+  (0 <? ln_)%Z && (0 <? ld)%Z && (0 <? vd)%Z &&
+  (2 * ln_ <=? Z.of_nat (S K) * ld)%Z &&
+  le0_check prec80 (pK_expr K (EQ ln_ ld)) &&
+  close_check (entropy_trunc_expr K (EQ ln_ ld)) (EQ vn vd) (ESub (EQ 1 (10 ^ 9)) tail_margin).
